@@ -48,10 +48,13 @@ type c14Case struct {
 
 var c14Cfgs = []Cfg{{}, {Map: true}, {Pretty: true, Indent: 99}, {Pretty: true, Indent: 99, Map: true}, {Pretty: true, Indent: -1, NoSemi: true}, {Pretty: true, Indent: 3, NoSemi: true, Map: true}}
 
+// c14MakeBuilder: the specs are valid by construction (each custom lexeme gets
+// one role per builder), so a refused registration can only come from state
+// that leaked in from another builder or parser.
 func c14MakeBuilder(s c14Spec) *parser.Builder {
 	pb, err := c05Build(s.Ops)
 	if err != nil {
-		panic("c14: " + err.Error())
+		panic(c14Leak{fmt.Sprintf("registering %+v on a new builder is refused (%v) although the same registrations succeed on a builder used alone", s.Ops, err)})
 	}
 	if s.Mode.Tolerant {
 		pb.WithTolerantMode(true)
@@ -67,9 +70,24 @@ func c14MakeBuilder(s c14Spec) *parser.Builder {
 	return pb
 }
 
-func c14Digest(prog *ast.Program, errs []parser.ParserError, cfg Cfg, c *compiler.Compiler) string {
+// c14Tokens: the token stream (numeric types included, so that dynamic token
+// ids are part of the result) a lexer built from the builder's lexer builder gives.
+func c14Tokens(pb *parser.Builder, input string) string {
+	l := pb.LexerBuilder.Build(input)
 	var b strings.Builder
-	fmt.Fprintf(&b, "errors=%v|", errs)
+	for i := 0; i < len(input)+3; i++ {
+		t := l.NextToken()
+		fmt.Fprintf(&b, "%d:%q@%d:%d ", int(t.Type), t.Literal, t.Start.Line, t.Start.Column)
+		if t.Type == token.EOF {
+			break
+		}
+	}
+	return b.String()
+}
+
+func c14Digest(toks string, prog *ast.Program, errs []parser.ParserError, cfg Cfg, c *compiler.Compiler) string {
+	var b strings.Builder
+	fmt.Fprintf(&b, "tokens=%s|errors=%v|", toks, errs)
 	if len(errs) == 0 && prog != nil {
 		res := c.Compile(prog)
 		b.WriteString(res.Code)
@@ -80,8 +98,19 @@ func c14Digest(prog *ast.Program, errs []parser.ParserError, cfg Cfg, c *compile
 	return b.String()
 }
 
-func c14Check(c c14Case, rec *evid.Recorder) *Fail {
+type c14Leak struct{ msg string }
+
+func c14Check(c c14Case, rec *evid.Recorder) (fl *Fail) {
 	rec.Eval()
+	defer func() {
+		if r := recover(); r != nil {
+			if lk, ok := r.(c14Leak); ok {
+				fl = failf("%s", lk.msg)
+				return
+			}
+			panic(r)
+		}
+	}()
 	if c.Procs > 0 {
 		defer runtime.GOMAXPROCS(runtime.GOMAXPROCS(c.Procs))
 	}
@@ -100,9 +129,10 @@ func c14Check(c c14Case, rec *evid.Recorder) *Fail {
 		if v, ok := ref[k]; ok {
 			return v
 		}
-		p := c14MakeBuilder(c.Specs[b]).Build(c.Inputs[i])
+		pb := c14MakeBuilder(c.Specs[b])
+		p := pb.Build(c.Inputs[i])
 		prog, _ := p.ParseProgram()
-		v := c14Digest(prog, p.Errors(), c14Cfgs[cf], c14Cfgs[cf].compiler())
+		v := c14Digest(c14Tokens(pb, c.Inputs[i]), prog, p.Errors(), c14Cfgs[cf], c14Cfgs[cf].compiler())
 		ref[k] = v
 		return v
 	}
@@ -171,11 +201,11 @@ func c14Check(c c14Case, rec *evid.Recorder) *Fail {
 					var got string
 					if j.Tree >= 0 {
 						t := getTree(j.Builder, j.Input)
-						got = c14Digest(t.prog, t.errs, c14Cfgs[j.Cfg], compilers[j.Cfg])
+						got = c14Digest(c14Tokens(builders[j.Builder], c.Inputs[j.Input]), t.prog, t.errs, c14Cfgs[j.Cfg], compilers[j.Cfg])
 					} else {
 						p := builders[j.Builder].Build(c.Inputs[j.Input])
 						prog, _ := p.ParseProgram()
-						got = c14Digest(prog, p.Errors(), c14Cfgs[j.Cfg], compilers[j.Cfg])
+						got = c14Digest(c14Tokens(builders[j.Builder], c.Inputs[j.Input]), prog, p.Errors(), c14Cfgs[j.Cfg], compilers[j.Cfg])
 					}
 					if want := ref[key{j.Builder, j.Input, j.Cfg}]; got != want {
 						setFail(failf("goroutine %d job %d (builder %d %+v, input %d, %s, shared-tree=%v): result differs from the result obtained alone\nalone  %s\nshared %s\ninput %q", g, n, j.Builder, c.Specs[j.Builder], j.Input, c14Cfgs[j.Cfg], j.Tree >= 0, trunc(want, 400), trunc(got, 400), c.Inputs[j.Input]))
